@@ -4,7 +4,6 @@ package main
 
 import (
 	"fmt"
-	"os"
 	"sort"
 )
 
@@ -26,7 +25,7 @@ func runMode(mode, prop, tier string, seed uint64, scratch, replays string) *Out
 		return decideHostile(prop, tier, seed, scratch, replays)
 	case "c10child":
 		c10child()
-		os.Exit(0)
+		exit(0)
 	}
 	return &Output{Property: prop, Tier: tier, Seed: seed, Violations: 1, Messages: []string{"unknown mode " + mode}}
 }
